@@ -88,6 +88,30 @@ impl s2n_quic::provider::random::Generator for Rand {
     }
 }
 
+/// deterministic stateless-reset tokens (a keyed function of the connection id); `ENABLED` makes the
+/// endpoint answer packets for unknown connections, which the library's default generator does not
+pub struct TokenGen<const ENABLED: bool>(pub u64);
+
+impl<const E: bool> s2n_quic::provider::stateless_reset_token::Generator for TokenGen<E> {
+    const ENABLED: bool = E;
+    fn generate(&mut self, local_connection_id: &[u8]) -> s2n_quic_core::stateless_reset::Token {
+        let mut t = [0u8; 16];
+        let a = vcore::hash_of(&(self.0, local_connection_id, 1u8));
+        let b = vcore::hash_of(&(self.0, local_connection_id, 2u8));
+        t[..8].copy_from_slice(&a.to_le_bytes());
+        t[8..].copy_from_slice(&b.to_le_bytes());
+        t.into()
+    }
+}
+
+impl<const E: bool> s2n_quic::provider::stateless_reset_token::Provider for TokenGen<E> {
+    type Generator = Self;
+    type Error = core::convert::Infallible;
+    fn start(self) -> Result<Self::Generator, Self::Error> {
+        Ok(self)
+    }
+}
+
 /// deterministic connection-id format (the default one draws from the OS)
 pub struct CidFormat {
     rng: Rand,
@@ -174,8 +198,18 @@ pub struct Extras {
     pub no_payload_check: bool,
 }
 
-fn start_server(handle: &Handle, cfg: &EndpointCfg, seed: u64, rec: Recorder) -> Server {
+fn start_server(handle: &Handle, cfg: &EndpointCfg, seed: u64, rec: Recorder, resets: bool) -> Server {
+    if resets {
+        start_server_with::<true>(handle, cfg, seed, rec)
+    } else {
+        start_server_with::<false>(handle, cfg, seed, rec)
+    }
+}
+
+fn start_server_with<const R: bool>(handle: &Handle, cfg: &EndpointCfg, seed: u64, rec: Recorder) -> Server {
     let b = Server::builder()
+        .with_stateless_reset_token(TokenGen::<R>(seed ^ 0x70c))
+        .unwrap()
         .with_io(io_of(handle, cfg))
         .unwrap()
         .with_tls((certificates::CERT_PKCS1_PEM, certificates::KEY_PKCS1_PEM))
@@ -196,8 +230,18 @@ fn start_server(handle: &Handle, cfg: &EndpointCfg, seed: u64, rec: Recorder) ->
     }
 }
 
-fn start_client(handle: &Handle, cfg: &EndpointCfg, seed: u64, rec: Recorder) -> Client {
+fn start_client(handle: &Handle, cfg: &EndpointCfg, seed: u64, rec: Recorder, resets: bool) -> Client {
+    if resets {
+        start_client_with::<true>(handle, cfg, seed, rec)
+    } else {
+        start_client_with::<false>(handle, cfg, seed, rec)
+    }
+}
+
+fn start_client_with<const R: bool>(handle: &Handle, cfg: &EndpointCfg, seed: u64, rec: Recorder) -> Client {
     let b = Client::builder()
+        .with_stateless_reset_token(TokenGen::<R>(seed ^ 0x70c))
+        .unwrap()
         .with_io(io_of(handle, cfg))
         .unwrap()
         .with_tls(certificates::CERT_PKCS1_PEM)
@@ -216,6 +260,48 @@ fn start_client(handle: &Handle, cfg: &EndpointCfg, seed: u64, rec: Recorder) ->
         Cc::Cubic => b.with_congestion_controller(Cubic::default()).unwrap().start().unwrap(),
         Cc::Bbr => b.with_congestion_controller(Bbr::default()).unwrap().start().unwrap(),
     }
+}
+
+pub fn stray_payload(st: &crate::scenario::Stray) -> Vec<u8> {
+    use crate::scenario::StrayKind;
+    let len = st.len as usize;
+    let mut v = vcore::gen::prf_vec(st.seed, 0, len.max(1));
+    let put = |v: &mut Vec<u8>, at: usize, bytes: &[u8]| {
+        for (i, b) in bytes.iter().enumerate() {
+            if at + i < v.len() {
+                v[at + i] = *b;
+            }
+        }
+    };
+    match st.kind {
+        StrayKind::Random => {}
+        StrayKind::ShortUnknownDcid => {
+            v[0] = 0x40 | (v[0] & 0x3f);
+        }
+        StrayKind::LongUnknownVersion => {
+            v[0] = 0xc0 | (v[0] & 0x3f);
+            put(&mut v, 1, &[0x1a, 0x2a, 0x3a, 0x4a]);
+            put(&mut v, 5, &[8]);
+            put(&mut v, 14, &[8]);
+        }
+        StrayKind::VersionNegotiation => {
+            v[0] = 0x80 | (v[0] & 0x7f);
+            put(&mut v, 1, &[0, 0, 0, 0]);
+            put(&mut v, 5, &[8]);
+            put(&mut v, 14, &[8]);
+        }
+        StrayKind::GarbageInitial => {
+            v[0] = 0xc0 | (v[0] & 0x0f);
+            put(&mut v, 1, &[0, 0, 0, 1]);
+            put(&mut v, 5, &[8]);
+            put(&mut v, 14, &[8]);
+            put(&mut v, 23, &[0]);
+            let rest = len.saturating_sub(26);
+            put(&mut v, 24, &[0x40 | ((rest >> 8) as u8 & 0x3f), rest as u8]);
+        }
+    }
+    v.truncate(len.max(1));
+    v
 }
 
 pub fn run(sc: &Scenario) -> Outcome {
@@ -248,7 +334,7 @@ pub fn run_with(sc: &Scenario, extras: Extras) -> Outcome {
             app.borrow_mut().handles = vec![None; sc.clients.len()];
 
             // server first: its address is the first one generated
-            let mut server = start_server(&handle, &sc.server, sc.seed ^ 0x5e, Recorder { ep: 0, trace: trace.clone() });
+            let mut server = start_server(&handle, &sc.server, sc.seed ^ 0x5e, Recorder { ep: 0, trace: trace.clone() }, sc.stateless_reset);
             let server_addr = server.local_addr().unwrap();
             net_shared.lock().unwrap().server_addr = Some(server_addr);
             addrs.lock().unwrap().0 = Some(server_addr);
@@ -270,7 +356,7 @@ pub fn run_with(sc: &Scenario, extras: Extras) -> Outcome {
 
             let mut client_addrs = vec![];
             for (i, c) in sc.clients.iter().enumerate() {
-                let client = start_client(&handle, &c.endpoint, sc.seed ^ (0xc1 + i as u64), Recorder { ep: i + 1, trace: trace.clone() });
+                let client = start_client(&handle, &c.endpoint, sc.seed ^ (0xc1 + i as u64), Recorder { ep: i + 1, trace: trace.clone() }, sc.stateless_reset);
                 let local = client.local_addr().unwrap();
                 client_addrs.push(local);
                 trace.lock().unwrap().addr_client.insert(local, i);
@@ -294,6 +380,22 @@ pub fn run_with(sc: &Scenario, extras: Extras) -> Outcome {
                 });
             }
             addrs.lock().unwrap().1 = client_addrs.clone();
+
+            // datagrams that belong to no connection
+            for (k, st) in sc.strays.iter().enumerate() {
+                let socket = handle.builder().build().unwrap().socket();
+                let dst = if st.to_server { Some(server_addr) } else { client_addrs.first().copied() };
+                let Some(dst) = dst else { continue };
+                let st = *st;
+                let app = app.clone();
+                let _ = k;
+                spawn(async move {
+                    delay(Duration::from_micros(st.at_us as u64 + 1)).await;
+                    let payload = stray_payload(&st);
+                    let _ = socket.send_to(dst, Default::default(), payload);
+                    app.borrow_mut().keep.push(Box::new(socket));
+                });
+            }
 
             if let Some(f) = extras.on_setup {
                 f(&handle, &net_shared, &trace, server_addr, &client_addrs);
